@@ -119,13 +119,14 @@ def run(ctx, n_quick=8, n_thorough=60):
                     C.compare_db_dump(ctx, b.path, "db.dump", mem=mem, strict=strict)
         r = ctx.rng
         # (a restarted log first: state leaking from one parse into the next shows on the logs parsed after it)
-        kinds = ["checkpoint_restart", "grow_shrink", "restart_after_rollback", None, "spill", None, "ddl", "grow_shrink"]
-        for i in range(8 if ctx.thorough() else 4):
+        kinds = ["checkpoint_restart", "freelist_drain", "grow_shrink", "restart_after_rollback", None, "spill", None, "ddl", "grow_shrink"]
+        for i in range(9 if ctx.thorough() else 5):
             cfg = F.random_cfg(r, page_sizes=[512, 1024, 4096], small=True)
             if kinds[i % len(kinds)] == "grow_shrink":
                 cfg.update(auto_vacuum=1 + i % 2, rows=60)      # a commit that leaves the database with fewer pages
             h = H.make_history(sc.path(f"h{i}"), cfg, r, kind=kinds[i % len(kinds)])
             ctx.branch(f"history:{h.kind}")
+            routes_agree(ctx, h, cfg)
             outs = []
             for mem in (False, True):
                 for strict in (True, False):
@@ -137,6 +138,53 @@ def run(ctx, n_quick=8, n_thorough=60):
                                     {"kind": h.kind, "cfg": cfg, "variant": c}, D.first_divergence(s, outs[0][1]), outs[0][0])
     finally:
         sc.close()
+
+
+def routes_agree(ctx, h, cfg):
+    """the convenience helper and the classes it wraps give the same commits: for table t0 of a history, signature and
+    freelist carving on, `interface.get_version_history_iterator` against `VersionHistoryParser` built by hand"""
+    import warnings
+    from sqlite_dissect import interface
+    from sqlite_dissect.file.database.database import Database
+    from sqlite_dissect.file.wal.wal import WriteAheadLog
+    from sqlite_dissect.version_history import VersionHistory, VersionHistoryParser
+
+    def show(it):
+        out = []
+        for c in it:
+            out.append((c.version_number, sorted(c.added_cells), sorted(c.updated_cells), sorted(c.deleted_cells),
+                        sorted(c.carved_cells)))
+        return out
+    res = {}
+    for route in ("helper", "classes"):
+        def f():
+            with warnings.catch_warnings():
+                warnings.simplefilter("ignore")
+                db = Database(h.db)
+                vh = VersionHistory(db, WriteAheadLog(h.wal)) if h.wal else VersionHistory(db)
+                sig = interface.create_table_signature("t0", db, vh)
+                if route == "helper":
+                    return show(interface.get_version_history_iterator("t0", vh, sig, True))
+                entry = next(e for e in db.master_schema.master_schema_entries if e.name == "t0")
+                return show(VersionHistoryParser(vh, entry, None, None, sig, True))
+        try:
+            res[route] = f()
+        except Exception as e:  # noqa
+            res[route] = f"err {type(e).__name__}"
+    ctx.evals += 1
+    ctx.branch(f"routes:{h.kind}:{'err' if isinstance(res['helper'], str) else 'ok'}")
+    if not isinstance(res["helper"], str):
+        ctx.nontrivial.add(("routes", h.kind, sum(len(c[4]) for c in res["helper"])))
+        ctx.extra["routes_carved_cells"] = ctx.extra.get("routes_carved_cells", 0) + sum(len(c[4]) for c in res["helper"])
+    if res["helper"] != res["classes"]:
+        n0 = len(ctx.oracle_failures)
+        div = next((i for i, (a, b) in enumerate(zip(res["helper"], res["classes"])) if a != b), None) \
+            if not isinstance(res["helper"], str) and not isinstance(res["classes"], str) else None
+        ctx.oracle_fail("config-dependent", "interface.get_version_history_iterator and VersionHistoryParser report different commits "
+                        "(added / updated / deleted / carved digests) for the same history, signature and freelist carving",
+                        {"kind": h.kind, "cfg": cfg, "first_differing_commit": div, "seed": ctx.seed},
+                        str(res["helper"])[:300], str(res["classes"])[:300])
+        C.keep_failing_files(ctx, n0, h.db, h.wal)
 
 
 def search(ctx, broken):
